@@ -22,6 +22,7 @@
 #include <unistd.h>
 #include <signal.h>
 #include <sys/wait.h>
+#include "Basic/VectorHelper.hpp"
 using namespace vh;
 
 static std::vector<double> flat(const AMatrix& m) { std::vector<double> v; for (int i = 0; i < m.getNRows(); i++) for (int j = 0; j < m.getNCols(); j++) v.push_back(m.getValue(i, j)); return v; }
@@ -179,6 +180,43 @@ int main()
     }
     std::string obs;
     for (size_t h = 0; h < H.size(); h++) { std::vector<int> v(H[h].begin(), H[h].end()); obs += (h ? "|" : "") + vecI(v); }
+    printf("o seq %s => %s\n", ops.c_str(), obs.c_str());
+  }
+
+  // the same on VectorDouble handles (integer contents) with the in-place helpers of VectorHelper: a helper applied to a
+  // vector that shares its buffer (a copy, an assigned vector) must leave the other holders untouched
+  for (long q = 0; q < nseq / 3; q++)
+  {
+    std::vector<VectorDouble> H; std::string ops;
+    int len = (int)rng.range(3, 12);
+    auto ints = [](const VectorDouble& v) { std::vector<int> o; for (double x : v) o.push_back((int)std::llround(x)); return o; };
+    for (int k = 0; k < len; k++)
+    {
+      int nh = (int)H.size();
+      int what = nh == 0 ? 0 : (int)rng.range(0, 9);
+      std::ostringstream os;
+      auto pick = [&]() { return (int)rng.range(0, nh - 1); };
+      if (what == 0 || nh == 0) { int n = (int)rng.range(1, 4); std::vector<int> v(n); VectorDouble d(n); for (int i = 0; i < n; i++) { v[i] = (int)rng.range(-5, 5); d[i] = v[i]; } H.push_back(d); os << "new:" << vecI(v); }
+      else if (what == 1 || what == 2) { int h = pick(); VectorDouble c(H[h]); H.push_back(c); os << "copy:" << h; }
+      else if (what == 3) { int h = pick(), g = pick(); H[h] = H[g]; os << "assign:" << h << ":" << g; }
+      else if (what >= 4 && what <= 6)
+      { // binary helpers need equal sizes (they refuse or throw otherwise): the second operand is a handle of the same size, or a fresh vector
+        int h = pick(); int n = (int)H[h].size(); VectorDouble w(n); std::vector<int> wi(n);
+        // (multiplications keep the contents small: products by a handle only when its values are at most 3 in magnitude)
+        int g = pick(); bool small = true; for (double v : H[g]) if (std::fabs(v) > 3.) small = false;
+        if ((int)H[g].size() == n && rng.coin(0.6) && (what != 6 || small)) { w = H[g]; wi = ints(H[g]); } else for (int i = 0; i < n; i++) { wi[i] = (int)rng.range(-3, 3); w[i] = wi[i]; }
+        if (what == 4) { VH::addInPlace(H[h], w); os << "vhadd:" << h << ":" << vecI(wi); }
+        else if (what == 5) { VH::subtractInPlace(H[h], w); os << "vhsub:" << h << ":" << vecI(wi); }
+        else { VH::multiplyInPlace(H[h], w); os << "vhmul:" << h << ":" << vecI(wi); }
+      }
+      else if (what == 7) { int h = pick(); int c = (int)rng.range(-3, 3); VH::multiplyConstant(H[h], (double)c); os << "vhscale:" << h << ":" << c; }
+      else if (what == 8) { int h = pick(); int c = (int)rng.range(-9, 9); VH::addConstant(H[h], (double)c); os << "vhshift:" << h << ":" << c; }
+      else { int h = pick(); VH::cumulateInPlace(H[h]); os << "vhcum:" << h; }
+      ops += (k ? ";" : "") + os.str();
+      { static const char* nm[] = {"new", "copy", "copy", "assign", "vh_addInPlace", "vh_subtractInPlace", "vh_multiplyInPlace", "vh_multiplyConstant", "vh_addConstant", "vh_cumulateInPlace"}; st.hit(std::string("cowd_") + nm[what]); }
+    }
+    std::string obs;
+    for (size_t h = 0; h < H.size(); h++) { obs += (h ? "|" : "") + vecI(ints(H[h])); }
     printf("o seq %s => %s\n", ops.c_str(), obs.c_str());
   }
 
